@@ -9,9 +9,10 @@ import json, os, re, shutil, subprocess, sys
 from pathlib import Path
 
 pid, x = sys.argv[1], sys.argv[2]
-checks = sys.argv[3:] or [pid]
-wt = Path("/tmp/wt_%s" % pid)
-sd = Path("/tmp/seed_%s/%s" % (pid, x))
+checks = [a for a in sys.argv[3:] if not a.startswith("--")] or [pid]
+r2 = "2" if "--round2" in sys.argv else ""
+wt = Path("/tmp/wt%s_%s" % (r2, pid))
+sd = Path("/tmp/seed%s_%s/%s" % (r2, pid, x))
 env = dict(os.environ, GOFLAGS="-mod=mod", GOPROXY="off", GOSUMDB="off", GOTOOLCHAIN="local")
 meta = {}
 if (sd / "meta.json").exists():
